@@ -123,3 +123,13 @@ def parse_expr(src):
 def require(cond, msg):
     if not cond:
         raise AnalysisError(msg)
+
+
+def mask_list_name(f, default='valid_rows'):
+    """the Boolean mask of _filter_candset_split by its role: the name the candidate set is indexed with in the return"""
+    import ast as _ast
+    for n in _ast.walk(f.node):
+        if isinstance(n, _ast.Return) and isinstance(n.value, _ast.Subscript) and isinstance(n.value.value, _ast.Name) \
+                and f.params and n.value.value.id == f.params[0] and isinstance(n.value.slice, _ast.Name):
+            return n.value.slice.id
+    return default
